@@ -176,9 +176,15 @@ Persistent(x) == LET c == LowerSeq(HeaderOf(x.hs, LowerSeq(HConnection))) IN
                  IF x.v = 0 THEN c = VKeepAlive ELSE c # VClose
 
 --------------------------------------------------------------------------------
-(* recognizer: the strict grammar (CRLF line ends, no folding).  ParseOne(s, p) = [ok, x: request as in Expect, p: position
-   after it].  ParseStream(s) = sequence of [x, end] for the complete requests s starts with.                      *)
-NoReq == [ok |-> FALSE, x |-> <<>>, p |-> 0]
+(* recognizer: the strict grammar (CRLF line ends, no folding, token names, no duplicate names, Content-Length of up to 8
+   digits or Transfer-Encoding: chunked).  ParseOne(s, p) = [st, x, p]:
+      st = "ok"   a complete request x (as in Expect) ends just before position p
+      st = "inc"  the bytes from p on are a proper prefix of a well-formed request (the peer closed early)
+      st = "bad"  they are not
+   ParseStream(s) = [reqs |-> sequence of [x, end], st |-> how the stream ends]:
+      "end" exactly after the last request, "closed" after a request that ends the connection (the rest is never
+      read), "inc" / "bad" as above for the bytes after the last complete request.                               *)
+Res(st, x, p) == [st |-> st, x |-> x, p |-> p]
 \* position of the CRLF ending the line that starts at p (0 if there is none)
 RECURSIVE EolFrom(_, _)
 EolFrom(s, p) == IF p + 1 > Len(s) THEN 0 ELSE IF s[p] = CR /\ s[p+1] = LF THEN p ELSE EolFrom(s, p + 1)
@@ -191,65 +197,71 @@ AllDigits(s) == s # <<>> /\ Len(s) <= 8 /\ \A i \in 1..Len(s) : IsDigit(s[i])
 AllHexDigits(s) == s # <<>> /\ Len(s) <= 6 /\ \A i \in 1..Len(s) : IsHex(s[i])
 
 RECURSIVE ParseHeaders(_, _, _)
-\* returns [ok, hs, p] with p after the blank line
+\* returns [st, hs, p] with p after the blank line
 ParseHeaders(s, p, acc) ==
     LET e == EolFrom(s, p) IN
-    IF e = 0 THEN [ok |-> FALSE, hs |-> <<>>, p |-> 0]
-    ELSE IF e = p THEN [ok |-> TRUE, hs |-> acc, p |-> p + 2]
+    IF e = 0 THEN [st |-> "inc", hs |-> <<>>, p |-> 0]
+    ELSE IF e = p THEN [st |-> "ok", hs |-> acc, p |-> p + 2]
     ELSE LET line == SubSeq(s, p, e - 1)
              c == IndexOf(line, COLON)
-         IN IF c <= 1 \/ IsWs(line[1]) \/ ~(\A i \in 1..(c-1) : IsTokenChar(line[i]))
-            THEN [ok |-> FALSE, hs |-> <<>>, p |-> 0]
-            ELSE ParseHeaders(s, e + 2, Append(acc, [n |-> LowerSeq(SubSeq(line, 1, c - 1)), v |-> Trim(SubSeq(line, c + 1, Len(line))), alt |-> Trim(SubSeq(line, c + 1, Len(line)))]))
+         IN IF c <= 1 \/ IsWs(line[1]) \/ ~(\A i \in 1..(c-1) : IsTokenChar(line[i])) \/ \E i \in 1..Len(line) : line[i] \in {0, CR, LF}
+            THEN [st |-> "bad", hs |-> <<>>, p |-> 0]
+            ELSE LET v == Trim(SubSeq(line, c + 1, Len(line))) IN
+                 ParseHeaders(s, e + 2, Append(acc, [n |-> LowerSeq(SubSeq(line, 1, c - 1)), v |-> v, alt |-> v]))
 
 RECURSIVE ParseChunks(_, _, _)
-\* returns [ok, body, p]
+\* returns [st, body, p]
 ParseChunks(s, p, acc) ==
-    LET e == EolFrom(s, p) IN
-    IF e = 0 \/ ~AllHexDigits(SubSeq(s, p, e - 1)) THEN [ok |-> FALSE, body |-> <<>>, p |-> 0]
+    LET e == EolFrom(s, p)
+        bad == [st |-> "bad", body |-> <<>>, p |-> 0]
+        inc == [st |-> "inc", body |-> <<>>, p |-> 0]
+    IN
+    IF e = 0 THEN (IF \A i \in p..Len(s) : IsHex(s[i]) \/ (i = Len(s) /\ s[i] = CR) THEN inc ELSE bad)
+    ELSE IF ~AllHexDigits(SubSeq(s, p, e - 1)) THEN bad
     ELSE LET n == HexValue(SubSeq(s, p, e - 1), 0) IN
-         IF n = 0 THEN (IF StartsWithAt(s, e + 2, CRLF) THEN [ok |-> TRUE, body |-> acc, p |-> e + 4] ELSE [ok |-> FALSE, body |-> <<>>, p |-> 0])
-         ELSE IF e + 2 + n + 1 > Len(s) \/ ~StartsWithAt(s, e + 2 + n, CRLF) THEN [ok |-> FALSE, body |-> <<>>, p |-> 0]
+         IF n = 0 THEN (IF StartsWithAt(s, e + 2, CRLF) THEN [st |-> "ok", body |-> acc, p |-> e + 4]
+                        ELSE IF e + 3 <= Len(s) \/ (e + 2 = Len(s) /\ s[e + 2] # CR) THEN bad ELSE inc)
+         ELSE IF e + 2 + n + 1 > Len(s) THEN (IF e + 2 + n = Len(s) /\ s[Len(s)] # CR THEN bad ELSE inc)
+         ELSE IF ~StartsWithAt(s, e + 2 + n, CRLF) THEN bad
          ELSE ParseChunks(s, e + 2 + n + 2, acc \o SubSeq(s, e + 2, e + 1 + n))
 
 ParseOne(s, p) ==
     LET e == EolFrom(s, p) IN
-    IF e = 0 THEN NoReq ELSE
+    IF e = 0 THEN Res("inc", <<>>, 0) ELSE
     LET line == SubSeq(s, p, e - 1)
         i == IndexOf(line, SP)
         j == IF i = 0 THEN 0 ELSE IndexFrom(line, SP, i + 1)
-    IN IF i <= 1 \/ j = 0 \/ j = i + 1 THEN NoReq ELSE
+    IN IF i <= 1 \/ j = 0 \/ j = i + 1 THEN Res("bad", <<>>, 0) ELSE
     LET m == SubSeq(line, 1, i - 1)
         t == SubSeq(line, i + 1, j - 1)
         pr == SubSeq(line, j + 1, Len(line))
-    IN IF ~(Len(pr) = 8 /\ SubSeq(pr, 1, 7) = HTTP1 /\ pr[8] \in {48, 49}) \/ ~(\A k \in 1..Len(m) : IsTokenChar(m[k])) \/ t[1] # SLASH
-          \/ \E k \in 1..Len(t) : t[k] <= 32 \/ t[k] >= 127
-       THEN NoReq ELSE
+    IN IF ~(Len(pr) = 8 /\ SubSeq(pr, 1, 7) = HTTP1 /\ pr[8] \in {48, 49}) \/ ~(\A q \in 1..Len(m) : IsTokenChar(m[q])) \/ t[1] # SLASH
+          \/ \E q \in 1..Len(t) : t[q] <= 32 \/ t[q] >= 127
+       THEN Res("bad", <<>>, 0) ELSE
     LET H == ParseHeaders(s, e + 2, <<>>) IN
-    IF ~H.ok \/ \E a, b \in 1..Len(H.hs) : a # b /\ H.hs[a].n = H.hs[b].n THEN NoReq ELSE
+    IF H.st # "ok" THEN Res(H.st, <<>>, 0)
+    ELSE IF \E a, b \in 1..Len(H.hs) : a # b /\ H.hs[a].n = H.hs[b].n THEN Res("bad", <<>>, 0) ELSE
     LET cl == HeaderOf(H.hs, LowerSeq(HContentLength))
         te == HeaderOf(H.hs, LowerSeq(HTransferEncoding))
-        hasCl == \E k \in 1..Len(H.hs) : H.hs[k].n = LowerSeq(HContentLength)
-        hasTe == \E k \in 1..Len(H.hs) : H.hs[k].n = LowerSeq(HTransferEncoding)
-        mk(body, q) == [ok |-> TRUE, x |-> [m |-> m, t |-> t, v |-> pr[8] - 48, hs |-> H.hs, body |-> body], p |-> q]
-    IN IF hasCl /\ hasTe THEN NoReq
-       ELSE IF hasTe THEN (IF te # VChunked THEN NoReq ELSE
-                           LET C == ParseChunks(s, H.p, <<>>) IN IF C.ok THEN mk(C.body, C.p) ELSE NoReq)
-       ELSE IF hasCl THEN (IF ~AllDigits(cl) THEN NoReq ELSE
+        hasCl == \E q \in 1..Len(H.hs) : H.hs[q].n = LowerSeq(HContentLength)
+        hasTe == \E q \in 1..Len(H.hs) : H.hs[q].n = LowerSeq(HTransferEncoding)
+        mk(body, q) == Res("ok", [m |-> m, t |-> t, v |-> pr[8] - 48, hs |-> H.hs, body |-> body], q)
+    IN IF hasCl /\ hasTe THEN Res("bad", <<>>, 0)
+       ELSE IF hasTe THEN (IF te # VChunked THEN Res("bad", <<>>, 0) ELSE
+                           LET C == ParseChunks(s, H.p, <<>>) IN IF C.st = "ok" THEN mk(C.body, C.p) ELSE Res(C.st, <<>>, 0))
+       ELSE IF hasCl THEN (IF ~AllDigits(cl) THEN Res("bad", <<>>, 0) ELSE
                            LET n == DecValue(cl, 0) IN
-                           IF H.p + n - 1 > Len(s) THEN NoReq ELSE mk(SubSeq(s, H.p, H.p + n - 1), H.p + n))
+                           IF H.p + n - 1 > Len(s) THEN Res("inc", <<>>, 0) ELSE mk(SubSeq(s, H.p, H.p + n - 1), H.p + n))
        ELSE mk(<<>>, H.p)
 
 RECURSIVE ParseFrom(_, _, _)
 ParseFrom(s, p, acc) ==
-    IF p > Len(s) THEN acc
+    IF p > Len(s) THEN [reqs |-> acc, st |-> "end"]
     ELSE LET r == ParseOne(s, p) IN
-         IF ~r.ok THEN acc
+         IF r.st # "ok" THEN [reqs |-> acc, st |-> r.st]
          ELSE LET acc2 == Append(acc, [x |-> r.x, end |-> r.p - 1]) IN
-              IF Persistent(r.x) THEN ParseFrom(s, r.p, acc2) ELSE acc2
+              IF Persistent(r.x) THEN ParseFrom(s, r.p, acc2) ELSE [reqs |-> acc2, st |-> "closed"]
 ParseStream(s) == ParseFrom(s, 1, <<>>)
-\* the bytes after the last complete request (empty = the stream is exactly a sequence of well-formed requests)
-Rest(s) == LET ps == ParseStream(s) IN IF ps = <<>> THEN s ELSE SubSeq(s, ps[Len(ps)].end + 1, Len(s))
 
 --------------------------------------------------------------------------------
 (* URL strings: [scheme "://"] host [":" port] [path]; host may be a bracketed IPv6 literal. *)
